@@ -16,7 +16,7 @@ func init() {
 		Explanation: "Static rules over every NonceStore implementation (discovered with types.Implements) and every verify wrapper: " +
 			"(strict) the replay rejection is canonically stored >= nonce; (cas-atomic) load, compare and store of the high-water mark sit in one lock region / one badger Update transaction, " +
 			"success paths store exactly once and failing paths never; (fresh) the store is only reachable past the rejection nonce <= now - ExpireNonce, ExpireNonce evaluates to 15 minutes, " +
-			"and the persistent driver's TTL is the same window; (key) the entry is keyed by the identity parameter only and holds the nonce parameter; " +
+			"and the persistent driver's TTL is that window plus the nonce's lead over the clock (the record outlives the nonce's freshness); (key) the entry is keyed by the identity parameter only and holds the nonce parameter; " +
 			"(same-identity) each wrapper hands the nonce store the identity and nonce it verified.",
 		NotDecided: []string{"not decided: behaviour across close/reopen (C13's transaction rules), clock skew, the boundary instant of the freshness window"},
 		Exhaustive: true,
@@ -309,10 +309,21 @@ func runC05(p *an.Prog, r *an.Run, tier string) {
 					if !derivesField(p, c.Common().Args[3], "badgerStore", "nonceExpire") {
 						bad = append(bad, "the nonce entry's TTL is not the freshness window: an entry expiring earlier re-opens the replay window")
 					}
-					for _, n := range p.Derives(0, c.Common().Args[3]).Nodes {
-						if bo, ok := n.(*ssa.BinOp); ok && (bo.Op == token.QUO || bo.Op == token.SUB || bo.Op == token.SHR) {
-							bad = append(bad, "the nonce entry's TTL is shortened relative to the freshness window")
+					dt := p.Derives(0, c.Common().Args[3])
+					for _, n := range dt.Nodes {
+						if bo, ok := n.(*ssa.BinOp); ok {
+							if bo.Op == token.QUO || bo.Op == token.SHR {
+								bad = append(bad, "the nonce entry's TTL is shortened relative to the freshness window")
+							}
+							if bo.Op == token.SUB && (derivesField(p, bo.X, "badgerStore", "nonceExpire") || derivesField(p, bo.Y, "badgerStore", "nonceExpire")) {
+								bad = append(bad, "the nonce entry's TTL is shortened relative to the freshness window")
+							}
 						}
+					}
+					// the record outlives the nonce's own freshness: a nonce ahead of the pool's clock passes the age check
+					// for (nonce - now) + window, so the TTL has to grow with that lead
+					if !dt.HasParam(noncePrm) || dt.CallTo(func(f *types.Func) bool { return an.IsFunc(f, "time", "Now") }) == nil {
+						bad = append(bad, "the nonce entry's TTL does not depend on how far the nonce lies ahead of the clock: the record of a future nonce expires while a replay of the same request still passes the age check, and is honoured again")
 					}
 				}
 				if o.Via == "setItem" || o.Via == "txn.Set" {
@@ -329,7 +340,7 @@ func runC05(p *an.Prog, r *an.Run, tier string) {
 				}
 			}
 		}
-		r.Check(len(bad) == 0, "fresh", kind, m.Pos(), "store only past 'nonce <= now - ExpireNonce => reject'; TTL equals the window", "%s", strings.Join(dedup(bad), "; "))
+		r.Check(len(bad) == 0, "fresh", kind, m.Pos(), "store only past 'nonce <= now - ExpireNonce => reject'; the record lives at least as long as the nonce stays fresh", "%s", strings.Join(dedup(bad), "; "))
 
 		// ---- key
 		bad = nil
